@@ -679,7 +679,10 @@ struct _future_stop_callback_factory final {
     using stop_callback_t =
         inplace_stop_token::callback_type<decltype(stopCallback)>;
 
-    return stop_callback_t{stopToken_, stopCallback};
+    // optional<> so that the callback can be deregistered as soon as the
+    // future has consumed the operation's result (see below)
+    return std::optional<stop_callback_t>{
+        std::in_place, stopToken_, stopCallback};
   }
 };
 
@@ -716,11 +719,18 @@ struct _future_sender_from_stop_token<T...>::type final {
   auto operator()(inplace_stop_token stopToken) noexcept {
     return let_value_with(
         _future_stop_callback_factory{op_.get(), stopToken},
-        [this](auto&) noexcept {
+        [this](auto& stopCallback) noexcept {
           return let_value(
               op_->evt_.async_wait(),
-              [this]() noexcept(
+              [this, &stopCallback]() noexcept(
                   noexcept(op_->get_value_sender(), op_->get_error_sender())) {
+                // deregister the stop callback before we release (and
+                // possibly delete) the spawned operation that it refers to;
+                // otherwise a stop request arriving after this future has
+                // completed, but before its operation state is destroyed,
+                // would invoke abandon() on a deleted operation
+                stopCallback.reset();
+
                 auto rawOp = op_.release();
 
                 using value_t = decltype(op_->get_value_sender());
